@@ -88,7 +88,22 @@ CHECKS = {
    note="Trusted: simulation hooks; the reference count of needed records. Three known findings are excluded by signature (datagrams without a PTR answer are cached whatever is searched for; every received copy adds timers; stale timers are not taken back) - what they leave is bounded by allowances computed per case (records within their TTL, copies received), so growth beyond them is still reported. Cache bounds are not judged in cases with the hostile datagram families (shared name pool)."),
 }
 
+FUZZ = {
+ "C01": "decode (byte-level: the bytes are the datagram)",
+ "C02": "encode (structured, seed-scheduled)",
+ "C04": "arrivals (structured, seed-scheduled)",
+ "C08": "comparison and conflicts (structured, seed-scheduled)",
+ "C14": "shutdown_queue (structured, seed-scheduled)",
+ "C15": "daemon_packets and api_arguments (structured, seed-scheduled)",
+ "C16": "txt (byte-level: the bytes are the TXT RDATA) and txt_lists (structured, seed-scheduled)",
+ "C18": "interfaces (structured, seed-scheduled)",
+}
+
 def check_entry(pid, c):
+    c = dict(c)
+    if pid in FUZZ:
+        c["technique"] += "; the thorough tier then runs coverage-guided libFuzzer campaigns (cargo-fuzz, fixed numbers of runs, the same oracle inside the target): " + FUZZ[pid]
+        c["note"] += " Thorough tier: tools/fuzz.sh merges the campaign figures into the evidence file (coverage.fuzz); a libFuzzer timeout / OOM / crash outside the oracle is reported as inconclusive (exit 2)."
     return {
         "property_id": pid,
         "quick_cmd": f"./check {pid} quick",
@@ -122,11 +137,12 @@ m = {
  "engines": [
    {"name": E1, "path": "/verif/harness/src/props/{c01,c02,c16}.rs + /verif/fuzz", "serves_properties": ["C01","C02","C16","C15"], "kind_free_text": "proptest generators + exhaustive enumeration + libFuzzer targets against the wire codec through the verif::codec facade, oracle = independent reference codec refdns"},
    {"name": E2, "path": "/verif/harness/src/props", "serves_properties": ["C08","C10","C11","C20"], "kind_free_text": "proptest / enumeration over records, cache and tiebreaking under a thread-local virtual clock"},
+   {"name": "E4 real threads", "path": "/verif/harness/src/props/c14.rs", "serves_properties": ["C14"], "kind_free_text": "an unhooked daemon on real sockets (private port) with 2-4 client threads issuing generated calls while another thread shuts it down; watchdog for blocked calls"},
    {"name": E3, "path": "/verif/harness/src/sim", "serves_properties": ["C03","C04","C05","C06","C07","C08","C09","C10","C11","C12","C13","C14","C15","C16","C17","C18","C19","C20"], "kind_free_text": "the real daemon thread in lock-step under a virtual clock, simulated interfaces, captured egress and injected ingress; generated histories, per-property monitors"},
  ],
  "checks": [check_entry(p["id"], CHECKS[p["id"]]) for p in props if p["id"] in CHECKS],
  "not_applicable": [{"property_id": p["id"], "reason": NOT_BUILT} for p in props if p["id"] not in CHECKS],
- "notes": "All checks: exit 0 held / 1 VIOLATION / 2 inconclusive. VERIF_SEED selects the PRNG stream. known_findings.json lists recorded defects; fix: commits in /repo repair the others.",
+ "notes": "All checks: exit 0 held / 1 VIOLATION / 2 inconclusive. VERIF_SEED selects the PRNG stream. known_findings.json lists recorded defects (status known) and the repaired ones (status fixed, suppressing nothing); fix: commits in /repo repair the others. DESIGN.md section 11 is the build report (defects repaired, known findings, false alarms corrected, the 60 seeded changes and which check catches which). VERIF_NO_FUZZ=1 skips the libFuzzer part of the thorough tier.",
 }
 json.dump(m, open(os.path.join(here, "MANIFEST.json"), "w"), indent=1)
 print("checks:", [c["property_id"] for c in m["checks"]])
